@@ -152,6 +152,7 @@ def run_case(case, work, rec):
             return
         consumed = False
         exps = {}       # (level, box) -> the located FAB as an array of all fields (None when the counts differ)
+        nbl = {}        # level -> number of boxes its (accepted) level header lists
         for lv in range(L + 1):
             ldir = inf["levels"][lv]["dir"].replace(path, dst)
             try:
@@ -159,6 +160,7 @@ def run_case(case, work, rec):
             except Exception:
                 rec.undecided("accepted level header outside the lenient grammar")
                 return
+            nbl[lv] = len(idx)
             for bi, ((lo, hi), (fn, off)) in enumerate(zip(idx, fod)):
                 # (1) every box must be readable without error, whatever the file looks like
                 reads = {}
@@ -221,6 +223,31 @@ def run_case(case, work, rec):
                               f"that name their index ranges, in the order requested: {descr}", key=key,
                               witness={"mutations": muts, "level": lv, "boxes": want,
                                        "returned": len(got) if isinstance(got, (list, tuple)) else type(got).__name__})
+                return
+        # (3b) iterating a validated level yields every box of it exactly once (the per-file readers walk each binary
+        # file from its first FAB header on - another code path than the reads by box above)
+        for lv in range(L + 1):
+            have = sorted(b for (l, b) in exps if l == lv)
+            if not have or any(exps[(lv, b)] is None for b in have) or len(have) != nbl.get(lv):
+                continue
+            pools.CTL.reset(mode="inproc", seed=rng.randrange(10 ** 6))
+            try:
+                got = []
+                for g in pck[nf - 1][lv]:
+                    got.append(g)
+                    if len(got) > len(have) + 3:
+                        break
+            except Exception as e:
+                rec.violation(f"validation accepted but iterating level {lv} raised {type(e).__name__}: {descr}", key=key,
+                              witness={"mutations": muts, "level": lv, "exc": repr(e)[:300]})
+                return
+            rec.count("levels_iterated_after_validation")
+            a = sorted((np.asarray(g).shape, np.ascontiguousarray(g).tobytes()) for g in got)
+            e_ = sorted((exps[(lv, b)][..., nf - 1].shape, np.ascontiguousarray(exps[(lv, b)][..., nf - 1]).tobytes()) for b in have)
+            if a != e_:
+                rec.violation(f"validation accepted but iterating level {lv} does not yield every box exactly once "
+                              f"({len(got)} yielded, the level has {len(have)}): {descr}", key=key,
+                              witness={"mutations": muts, "level": lv, "yielded": len(got), "boxes": len(have)})
                 return
         # (4) under a level limit the finest validated level is also level -1 of the reader opened with that limit
         if limit is not None and (L, 0) in exps and exps[(L, 0)] is not None:
